@@ -37,7 +37,8 @@ def one(d, jobs):
             res.update({"passed": None, "note": "only front-end files patched; no test imports frontend/ (grep confirmed), suite result unchanged"})
         elif p.returncode == 0:
             home = tempfile.mkdtemp(prefix="seedhome_")
-            cmd = "/venv/bin/python -m pytest -q -p no:cacheprovider -n %d --dist loadfile --timeout=900 %s" % (jobs, " ".join(tests))
+            # the 10 TestDBMDict tests fail on the unchanged tree (and can dead-lock on a loaded machine): deselected, as in the baseline
+            cmd = "/venv/bin/python -m pytest -q -p no:cacheprovider -n %d --dist loadfile --timeout=900 --deselect test/test_persistent_dict.py::TestDBMDict %s" % (jobs, " ".join(tests))
             r = subprocess.run(cmd, shell=True, cwd=tmp, capture_output=True, text=True, env=dict(os.environ, HOME=home))
             tail = r.stdout.strip().splitlines()[-1] if r.stdout.strip() else ""
             failed = re.findall(r"^FAILED (\S+)", r.stdout, re.M)
